@@ -140,6 +140,9 @@ package staking
 //@   requires ctx != nil && tx != nil
 //@   ensures !old(api.IsCheck(ctx)) ==> err == nil && stakingState.GWrites == old(stakingState.GWrites) && mapEq(stakingState.GNonce, old(stakingState.GNonce))
 //@   note outside CheckTx the post-execution hook writes nothing: in block delivery the nonce is advanced and the fee charged exactly once, by AuthenticateAndPayFees before execution
+//@   assumes stakingState.GNonce[staking.AddrOf(api.Signer(ctx))] < 18446744073709551615
+//@   ensures old(api.IsCheck(ctx)) && err == nil ==> mapEq(stakingState.GNonce, upd(old(stakingState.GNonce), staking.AddrOf(old(api.Signer(ctx))), old(stakingState.GNonce[staking.AddrOf(api.Signer(ctx))]) + 1))
+//@   note in CheckTx the hook advances the signer's nonce in the CHECK state by exactly one for EVERY accepted transaction, whatever fee it names (also none): the same signed bytes then fail the nonce check of a re-check, and the signer's next transaction is the one with the following nonce (seed C09_l skipped the increment for fee-less transactions)
 
 //@ func Application.AuthenticateTx
 //@   assume-pre api\.Context\.TxSigner$
